@@ -235,7 +235,7 @@ fn mutate_once(s: &str, t: &mut Tape) -> String {
 
 fn hostile_value(t: &mut Tape) -> FileVal {
     let s = |x: &str| FileVal::Str(x.to_string());
-    match t.pick(16) {
+    match t.pick(17) {
         0 => FileVal::Seq(vec![s("i32")]),
         1 => FileVal::Seq(vec![]),
         2 => FileVal::Seq(vec![s(["f32", "f64", "i8", "u8", "u64", "i128", "", "I32", " i32 "][t.pick(9)]), FileVal::Seq(vec![s("a"), s(RANGE_COUNTS[t.pick(RANGE_COUNTS.len())])]), FileVal::Seq(vec![s("b")])]),
@@ -251,6 +251,29 @@ fn hostile_value(t: &mut Tape) -> FileVal {
         12 => FileVal::Seq(vec![FileVal::Seq(vec![s("a")]), FileVal::Seq(vec![s("b"), s("1")])]),
         13 => FileVal::Seq(vec![FileVal::Seq(vec![]), FileVal::Seq(vec![s("b")])]),
         14 => FileVal::Seq(vec![FileVal::Seq(vec![FileVal::Null, s("1")]), FileVal::Map(vec![("value".into(), FileVal::Null)]), FileVal::Seq(vec![FileVal::Null])]),
+        15 => {
+            // an explicit default where a branch value is expected
+            let ty = ["", "", "f32", "u8"][t.pick(4)];
+            let mut seq = vec![];
+            if !ty.is_empty() {
+                seq.push(s(ty));
+            }
+            match t.pick(3) {
+                0 => {
+                    seq.push(FileVal::Seq(vec![s("a"), FileVal::I(1)]));
+                    seq.push(FileVal::Seq(vec![FileVal::Null]));
+                }
+                1 => {
+                    seq.push(FileVal::Seq(vec![FileVal::Null, FileVal::I(1)]));
+                    seq.push(FileVal::Seq(vec![s("b")]));
+                }
+                _ => {
+                    seq.push(FileVal::Map(vec![("count".into(), s("1")), ("value".into(), FileVal::Null)]));
+                    seq.push(FileVal::Seq(vec![s("b")]));
+                }
+            }
+            FileVal::Seq(seq)
+        }
         _ => [FileVal::Null, FileVal::F(1e308), FileVal::I(i64::MIN), FileVal::U(u64::MAX), FileVal::Bool(false)][t.pick(5)].clone(),
     }
 }
@@ -285,7 +308,7 @@ fn mutate_file(v: &mut FileVal, t: &mut Tape, all_keys: &[String]) -> Vec<String
     let mut labels = vec![];
     let n = t.range(1, 3);
     for _ in 0..n {
-        match t.weighted(&[8, 3, 2, 2, 2, 1]) {
+        match t.weighted(&[8, 3, 2, 2, 2, 1, 1, 1]) {
             0 => {
                 let total = count_strings(v);
                 if total > 0 {
@@ -342,7 +365,7 @@ fn mutate_file(v: &mut FileVal, t: &mut Tape, all_keys: &[String]) -> Vec<String
                     labels.push("reference-in-plural-or-range".into());
                 }
             }
-            _ => {
+            5 => {
                 // duplicate a key
                 if let FileVal::Map(entries) = v {
                     if !entries.is_empty() {
@@ -351,6 +374,40 @@ fn mutate_file(v: &mut FileVal, t: &mut Tape, all_keys: &[String]) -> Vec<String
                         entries.push(e);
                         labels.push("duplicate-key".into());
                     }
+                }
+            }
+            6 => {
+                // plural forms whose base name is empty / not a key on its own
+                if let FileVal::Map(entries) = v {
+                    let base = ["", "_", "-", "--", "_ordinal", "__ordinal"][t.pick(6)];
+                    let ord = if t.chance(1, 3) { "_ordinal" } else { "" };
+                    entries.push((format!("{base}{ord}_one"), FileVal::Str("one".into())));
+                    entries.push((format!("{base}{ord}_other"), FileVal::Str("other {{ count }}".into())));
+                    labels.push("plural-forms-without-base".into());
+                }
+            }
+            _ => {
+                // the same key twice with values of different kinds; the first one may hold references
+                if let FileVal::Map(entries) = v {
+                    let target = if all_keys.is_empty() { "k0".to_string() } else { all_keys[t.pick(all_keys.len())].clone() };
+                    let name = if !entries.is_empty() && t.coin() { entries[t.pick(entries.len())].0.clone() } else { format!("dup{}", entries.len()) };
+                    let with_ref = |t: &mut Tape| match t.pick(4) {
+                        0 => FileVal::Map(vec![("x".into(), FileVal::Str(format!("$t({target})")))]),
+                        1 => FileVal::Map(vec![("p_one".into(), FileVal::Str(format!("$t({target})"))), ("p_other".into(), FileVal::Str("o".into()))]),
+                        2 => FileVal::Map(vec![("s".into(), FileVal::Map(vec![("y".into(), FileVal::Str(format!("a $t({target}) b")))]))]),
+                        _ => FileVal::Str(format!("$t({target})")),
+                    };
+                    let first = with_ref(t);
+                    let second = match t.pick(5) {
+                        0 => FileVal::Str("plain".into()),
+                        1 => FileVal::Null,
+                        2 => FileVal::Map(vec![("p".into(), FileVal::Str("s".into()))]),
+                        3 => with_ref(t),
+                        _ => hostile_value(t),
+                    };
+                    entries.push((name.clone(), first));
+                    entries.push((name, second));
+                    labels.push("duplicate-key-different-kind".into());
                 }
             }
         }
@@ -564,6 +621,12 @@ pub const REGRESSIONS: &[(&str, &str)] = &[
     ("D8-nan-bound", r#"{"r": ["f32", ["a", "NaN"], ["b"]]}"#),
     ("D8-inf-bound", r#"{"r": ["f64", ["a", "inf.."], ["b"]]}"#),
     ("D8-f32-overflow-number", r#"{"r": ["f32", ["a", 1e300], ["b"]]}"#),
+    ("D26-null-range-fallback", r#"{"r": [["a", 1], [null]], "k": "v"}"#),
+    ("D26-null-range-branch", r#"{"r": ["f32", [null, 1.5], ["b"]], "k": "v"}"#),
+    ("D27-empty-plural-base", r#"{"_one": "a", "_other": "b", "k": "v"}"#),
+    ("D27-underscore-plural-base", r#"{"__one": "a", "__other": "b", "-_ordinal_one": "c", "-_ordinal_other": "d"}"#),
+    ("D28-duplicate-replaces-subkeys-with-reference", r#"{"g": {"x": "$t(k)"}, "g": "plain", "k": "v"}"#),
+    ("D28-duplicate-replaces-plural-form-reference", r#"{"g": {"p_one": "$t(k)", "p_other": "o"}, "g": {"p": "s"}, "k": "v"}"#),
 ];
 
 fn run_regressions(ctx: &mut Ctx, scratch: &Scratch) {
@@ -786,8 +849,11 @@ pub fn run(mut ctx: Ctx) -> ! {
     if let Some(path) = ctx.replay.clone() {
         ctx.replay_tape("mutate", &path, |t| case(t, &scratch, 2000, &slow));
     } else {
-        run_regressions(&mut ctx, &scratch);
-        run_corpus(&mut ctx, &scratch);
+        // VERIF_C09_GENERATED_ONLY=1: sensitivity runs that ask what the generator finds without the saved inputs
+        if std::env::var("VERIF_C09_GENERATED_ONLY").is_err() {
+            run_regressions(&mut ctx, &scratch);
+            run_corpus(&mut ctx, &scratch);
+        }
         let cases = ctx.tier.scale(6000, 200000);
         ctx.run_tapes("mutate", cases, 1500, |t| case(t, &scratch, 2000, &slow));
         let sizes: &[usize] = match ctx.tier {
@@ -804,7 +870,7 @@ pub fn run(mut ctx: Ctx) -> ! {
         "(a) well-formed generated projects hit by 1-6 grammar-aware mutations (insert / delete / duplicate / transpose a delimiter \
          token, odd or multi-byte characters next to delimiters, truncation, hostile snippets, hostile range declarations and \
          bounds such as NaN / inf / overflow / type-only / no fallback, hostile `$t` arguments and counts, `$t` inside plural \
-         forms and range branches, cycles, odd or plural-shaped key names, duplicate keys, mutated manifests), each run in-process \
+         forms and range branches, cycles, odd or plural-shaped key names, plural forms without a base name, duplicate keys of the same and of different kinds (the replaced one holding references), explicit defaults as range branch values, mutated manifests), each run in-process \
          under catch_unwind through parse_locales, TranslationsInfos::parse_at_dir + write_to_dir + get_icu_keys, and the code \
          generator; (b) deep / long single values (10 shapes x 3-4 sizes up to 64 KiB) run in child processes with the default \
          stack, exit status observed; (c) the regression inputs of earlier panics. oracle: outcome is Ok or an error with a non-empty \
